@@ -41,6 +41,7 @@ type RunOpts struct {
 	NoFinal   bool // skip the end-of-case comparison (engines that do their own)
 	KeepData  bool // log the payload of every write (C03)
 	NoLog     bool // do not keep the file call log (long scans)
+	RealFile  bool // mirror every file call on a real os.File and compare (harness self-check)
 	// InitImage/InitDurable start the case on an existing file image whose
 	// durable states are known (C03: a crash image and what must be recoverable).
 	InitImage   []byte
@@ -117,6 +118,10 @@ func Run(c Case, opt RunOpts) (v *Violation, ev map[string]int) {
 				v = a.v
 				return
 			}
+			if d, ok := r.(mirrorDivergence); ok {
+				v = &Violation{Prop: opt.Prop, OpIdx: w.opIdx, Sig: "harness-memfile-diverges", Msg: d.msg}
+				return
+			}
 			v = &Violation{Prop: opt.Prop, OpIdx: w.opIdx, Sig: "panic",
 				Msg: fmt.Sprintf("panic: %v\n%s", r, trimStack(debug.Stack()))}
 		}
@@ -159,6 +164,17 @@ func (w *World) run() {
 		w.file.KeepData = w.opt.KeepData
 		if w.opt.NoLog {
 			w.file.KeepLog = false
+		}
+		if w.opt.RealFile && w.opt.InitImage == nil {
+			f, err := os.CreateTemp("", "verif-mirror-*.gkv")
+			if err != nil {
+				w.failf("harness", "cannot create the mirror file: %v", err)
+			}
+			w.file.Mirror = f
+			defer func() {
+				f.Close()
+				os.Remove(f.Name())
+			}()
 		}
 		if w.opt.Lazy {
 			w.lazy = newLazyState()
@@ -248,6 +264,9 @@ func (w *World) openOrig(first bool) {
 				// "no roots" error.  The application starts over with an empty file.
 				w.ev["reopen_no_roots"]++
 				w.file.B = w.file.B[:0]
+				if w.file.Mirror != nil {
+					w.file.Mirror.Truncate(0)
+				}
 				w.junkEnd = 0
 				st, err = g.NewStoreEx(w.file, w.cbs)
 			}
@@ -550,8 +569,25 @@ func (w *World) exec(op *Op) (done bool) {
 			return true
 		}
 		c, _ := w.collFor(h, op.C, true)
+		if k := op.Flag % 8; k >= 5 {
+			// the same rejections through Set(key, val) (priority drawn by the library)
+			var err error
+			switch k {
+			case 5:
+				err = c.Set([]byte{}, []byte("v"))
+			case 6:
+				err = c.Set([]byte("k"), nil)
+			default:
+				err = c.Set(bytes.Repeat([]byte{'y'}, 65536), []byte("v"))
+			}
+			if err == nil {
+				w.failf("invalid-accepted", "Set accepted an invalid key/value (kind %d)", k)
+			}
+			w.ev["badset"]++
+			break
+		}
 		it := w.newItem([]byte("k"), []byte("v"), 1)
-		switch op.Flag % 5 {
+		switch op.Flag % 8 {
 		case 0:
 			it.Key = []byte{}
 		case 1:
@@ -569,7 +605,7 @@ func (w *World) exec(op *Op) (done bool) {
 		err := c.SetItem(it)
 		w.dropAppRef(h, c, it)
 		if err == nil {
-			w.failf("invalid-accepted", "SetItem accepted an invalid item (kind %d)", op.Flag%5)
+			w.failf("invalid-accepted", "SetItem accepted an invalid item (kind %d)", op.Flag%8)
 		}
 		w.ev["badset"]++
 	case OpGet, OpGetItem, OpExist, OpMin, OpMax, OpTotals, OpNames, OpLen:
